@@ -276,25 +276,44 @@ Fixpoint rebuild (real : str) (segs : list seg) : str :=
   | SLit s :: r => s ++ rebuild real r
   end.
 
+(* One more observation of the same call site with the same hostile inputs under another
+   (Accept, X-Requested-With) combination, over a real HTTP server:
+     mode   : what the model says the handler does with that combination (0 = the same HTML page,
+              1 = the JSON error body);
+     ctype  : the Content-Type the server actually sent (declared by the handler, or sniffed by
+              net/http's response writer when the handler declared none);
+     body   : the body, as a recipe over the bytes of the case's main body (None = same bytes);
+     benign : the body of the benign run of the same (call site, combination), as a recipe over
+              [body] (None = same bytes as the main benign body). *)
+Inductive variant := Var (mode : N) (ctype : str) (body benign : option (list seg)).
+
 Inductive case :=
 (* a whole page: which template set (0 = sso-proxy, 1 = sso-auth), the template name, the data the
-   handler handed to ExecuteTemplate, the bytes the real code wrote, the bytes the real code
-   writes for the benign variant of the same data (as a recipe, see above), how the page was
-   reached (0 = template set executed directly, 1 = request through the real handler) *)
-| CPage (svc : N) (page : str) (data : list (str * value)) (real : str) (benign : list seg) (via : N)
+   handler handed to ExecuteTemplate, the Content-Type sent, the bytes the real code wrote, the
+   bytes the real code writes for the benign variant (as a recipe, see above), how the page was
+   reached (0 = template set executed directly, 1 = request through the real handler over a real
+   HTTP server), further (Accept, XHR) combinations *)
+| CPage (svc : N) (page : str) (data : list (str * value)) (ctype real : str) (benign : list seg) (via : N)
+        (vars : list variant)
 (* one placeholder: the real template executed with sentinel ++ payload ++ sentinel in one field;
    [rendered] is what the real code wrote between the sentinels.
    ctx: 0 = text node, 1 = double-quoted attribute value *)
 | CHole (svc : N) (page field : str) (ctx : N) (payload rendered : str)
 (* a page-rendering call site whose page does not show the hostile inputs at all (constant title
    and message): the body the real handler wrote with hostile text in every request- and
-   provider-controlled input that reaches the call site, and (as a recipe) the body the same
-   handler wrote for the benign variant of the same request. The model predicts equal bytes. *)
-| CSame (svc : N) (site : N) (real : str) (benign : list seg)
+   provider-controlled input (parameters, cookies, request headers, provider answers) that reaches
+   the call site, and (as a recipe) the body the same handler wrote for the benign variant of the
+   same request. The model predicts equal bytes. *)
+| CSame (svc : N) (site : N) (ctype real : str) (benign : list seg) (vars : list variant)
 (* a JSON error body: 0 = sso-proxy XHRError, 1 = sso-auth ErrorResponse with Accept: application/json *)
-| CJson (svc : N) (msg body : str).
+| CJson (svc : N) (msg ctype body : str) (benign : list seg).
 
 Definition tpls_of (svc : N) : templates := if svc =? 0 then proxy_templates else auth_templates.
+
+(* content types the driver abbreviates *)
+Definition ct_html : str := [116;101;120;116;47;104;116;109;108;59;32;99;104;97;114;115;101;116;61;117;116;102;45;56].  (* text/html; charset=utf-8 *)
+Definition ct_json : str := [97;112;112;108;105;99;97;116;105;111;110;47;106;115;111;110].                              (* application/json *)
+Definition ct_plain : str := [116;101;120;116;47;112;108;97;105;110;59;32;99;104;97;114;115;101;116;61;117;116;102;45;56]. (* text/plain; charset=utf-8 *)
 
 (* ---- the property on observations ---- *)
 
@@ -303,6 +322,27 @@ Definition tpls_of (svc : N) : templates := if svc =? 0 then proxy_templates els
 Definition page_inert (real benign : str) : bool :=
   evs_eqb (skeleton real) (skeleton benign) && tstate_eqb (final_state real) SData.
 
+Fixpoint contains (s p : str) : bool :=
+  has_prefix s p || match s with [] => false | _ :: r => contains r p end.
+
+(* a browser treats the body as markup: HTML, XHTML / XML / SVG, or no type at all (then it sniffs) *)
+Definition is_markup_type (ct : str) : bool :=
+  let l := lower_ascii ct in
+  match l with [] => true | _ => false end ||
+  has_prefix l [116;101;120;116;47;104;116;109;108] ||        (* text/html *)
+  contains l [120;109;108] ||                                  (* xml *)
+  contains l [115;118;103].                                    (* svg *)
+Definition is_json_type (ct : str) : bool :=
+  has_prefix (lower_ascii ct) [97;112;112;108;105;99;97;116;105;111;110;47;106;115;111;110].
+
+(* Whatever form the body has: if its effective content type is markup, the skeleton clause applies
+   with the benign run of the same call site and combination as reference; if it claims JSON, it
+   must be one well-formed error object; other types (text/plain, ...) are not interpreted *)
+Definition resp_inert (ctype body benign : str) : bool :=
+  if is_markup_type ctype then page_inert body benign
+  else if is_json_type ctype then json_error_doc_ok body
+  else true.
+
 (* the bytes written for one placeholder: no markup delimiter, quote or NUL, every ampersand
    starts a reference the escaper emits, and decoding the references gives back the payload *)
 Definition hole_inert (payload rendered : str) : bool :=
@@ -310,24 +350,49 @@ Definition hole_inert (payload rendered : str) : bool :=
 
 Definition has_special (s : str) : bool := existsb (fun c => is_special c || (c =? 38) || (c =? 43)) s.
 
+Definition k_Message : str := [77;101;115;115;97;103;101].
+Definition msg_of (data : list (str * value)) : str :=
+  match lookup k_Message data with Some (VStr s) => s | _ => [] end.
+Definition model_json (svc : N) (data : list (str * value)) : str :=
+  if svc =? 0 then proxy_xhr_json [] else auth_error_json (msg_of data).
+
+Definition var_body (real : str) (v : variant) : str :=
+  match v with Var _ _ (Some segs) _ => rebuild real segs | Var _ _ None _ => real end.
+Definition var_benign (real benign : str) (v : variant) : str :=
+  match v with Var _ _ _ (Some segs) => rebuild (var_body real v) segs | Var _ _ _ None => benign end.
+(* model: mode 0 = same page with an HTML type, mode 1 = the JSON body with the JSON type *)
+Definition var_mismatch (real jm : str) (v : variant) : bool :=
+  match v with
+  | Var mode ct _ _ =>
+      if mode =? 0 then negb (str_eqb (var_body real v) real) || negb (has_prefix (lower_ascii ct) [116;101;120;116;47;104;116;109;108])
+      else negb (str_eqb (var_body real v) jm) || negb (is_json_type ct)
+  end.
+Definition var_holds (real benign : str) (v : variant) : bool :=
+  match v with Var _ ct _ _ => resp_inert ct (var_body real v) (var_benign real benign v) end.
+
 Definition judge (c : case) : N :=
   match c with
-  | CPage svc page data real benign _ =>
+  | CPage svc page data ctype real benign _ vars =>
       let m := render_page (tpls_of svc) page data in
-      code (negb (option_eqb str_eqb m (Some real))) (page_inert real (rebuild real benign)) 0
+      let b := rebuild real benign in
+      code (negb (option_eqb str_eqb m (Some real)) || negb (is_markup_type ctype) ||
+            existsb (var_mismatch real (model_json svc data)) vars)
+           (resp_inert ctype real b && forallb (var_holds real b) vars) 0
   | CHole svc page field ctx payload rendered =>
       let m := if ctx =? 0 then html_escape payload else attr_escape payload in
       code (negb (str_eqb m rendered)) (hole_inert payload rendered) 0
-  | CSame svc site real benign =>
+  | CSame svc site ctype real benign vars =>
       let b := rebuild real benign in
-      code (negb (str_eqb real b)) (page_inert real b) 0
-  | CJson svc msg body =>
+      code (negb (str_eqb real b) || negb (is_markup_type ctype) ||
+            existsb (var_mismatch real (model_json svc [])) vars)
+           (resp_inert ctype real b && forallb (var_holds real b) vars) 0
+  | CJson svc msg ctype body benign =>
       let m := if svc =? 0 then proxy_xhr_json msg else auth_error_json msg in
-      code (negb (str_eqb m body)) (json_error_doc_ok body) 0
+      code (negb (str_eqb m body) || negb (is_json_type ctype)) (resp_inert ctype body (rebuild body benign)) 0
   end.
 
 (* classes: 0/10/20 = payload without any character the escapers touch (trivial);
-   pages 1.., holes 11.., json 21.. *)
+   pages 1.., holes 11.., json 21.., constant-text call sites 30.. *)
 Definition data_special (data : list (str * value)) : bool :=
   existsb (fun kv => match snd kv with
                      | VStr s => has_special s
@@ -340,8 +405,8 @@ Definition json_special (s : str) : bool :=
 
 Definition classify (c : case) : N :=
   match c with
-  | CPage svc _ data _ _ via => if data_special data then 1 + svc + 2 * via else 0
+  | CPage svc _ data _ _ _ via vars => if data_special data then 1 + svc + 2 * via + (match vars with [] => 0 | _ => 4 end) else 0
   | CHole svc _ _ ctx payload _ => if has_special payload then 11 + svc + 2 * ctx else 10
-  | CSame svc site _ _ => 30 + svc
-  | CJson svc msg _ => if json_special msg then 21 + svc else 20
+  | CSame svc site _ _ _ _ => 30 + svc
+  | CJson svc msg _ _ _ => if json_special msg then 21 + svc else 20
   end.
